@@ -1,15 +1,69 @@
 /-
 C18 — Styled-text codecs round-trip and all SGR producers and consumers agree.
 Property theorems only (helper lemmas live in Lemmas/Sgr.lean).
+
+Vocabulary: `Spec.sgr` (Spec/Sgr.lean) is the meaning of one `CSI … m` on a terminal pen `TStyle`;
+`shown : Style → TStyle` is what a terminal displays for a vaxis style; `apply t l` interprets the
+sequences `l` one after the other from pen `t`.
 -/
-import VaxisModel.Model.Sgr
+import VaxisModel.Lemmas.Sgr
 
 namespace VaxisModel.Props.C18
-open VaxisModel.Model.Sgr VaxisModel.Gen
+open VaxisModel VaxisModel.Model.Sgr VaxisModel.Gen VaxisModel.Spec VaxisModel.Lemmas.Sgr
 
-/-- The seven attribute bits of style.go are distinct single bits 1..7 of a `uint8`. -/
+/-- The seven attribute bits of style.go are the single bits 1..7 of a `uint8` (bit 0 is unused). -/
 theorem attr_bits :
     [SgrCases.AttrBold, SgrCases.AttrDim, SgrCases.AttrItalic, SgrCases.AttrBlink, SgrCases.AttrReverse,
      SgrCases.AttrInvisible, SgrCases.AttrStrikethrough] = [2 ^ 1, 2 ^ 2, 2 ^ 3, 2 ^ 4, 2 ^ 5, 2 ^ 6, 2 ^ 7] := by decide
+
+/-- **attr_delta.** For *all* attribute masks `a b` (no bound: in particular all 128 × 128 masks over the
+    seven defined bits), interpreting the codes the producers write for the transition `a → b` on a pen
+    whose attributes are those of `a` gives the attributes of `b` and leaves everything else alone.
+    Proved per bit: each bit is set by its own code and cleared by its own reset; bold and dim share
+    reset 22 and the survivor is re-asserted. -/
+theorem attr_delta (a b : Nat) (t : TStyle) :
+    apply (withAttrs a t) (attrDelta a b) = withAttrs b t := attrDelta_correct a b t
+
+example : attrDelta 6 4 = [[[22]], [[2]]] := by decide          -- bold+dim → dim: 22 then dim again
+example : attrDelta 2 4 = [[[2]], [[22]], [[2]]] := by decide   -- bold → dim
+
+/-- **pen_delta_correct (EncodeCells).** For every pair of styles (next underline style one of the six),
+    with or without the legacy-SGR quirk: the sequences written between two cells turn a terminal
+    showing `p` into one showing `n`. -/
+theorem pen_delta_correct_encodeCells (legacy : Bool) (p n : Style) (hn : n.ulStyle ≤ 5) :
+    apply (shown p) (encodeDelta legacy p n) = shown n := encodeDelta_correct legacy p n hn
+
+/-- **pen_delta_correct (StyledString.Encode).** -/
+theorem pen_delta_correct_ssEncode (p n : Style) (hn : n.ulStyle ≤ 5) :
+    apply (shown p) (ssDelta p n) = shown n := ssDelta_correct p n hn
+
+/-- **pen_delta_correct (render).** For every capability setting: without `rgb` the terminal shows the
+    palette fallback of direct colours, without `styledUnderlines` no underline colour and a single
+    underline for every underline style (`shownCaps`). -/
+theorem pen_delta_correct_render (rgb su legacy : Bool) (p n : Style) (hn : n.ulStyle ≤ 5) :
+    apply (shownCaps rgb su p) (renderDelta rgb su legacy p n) = shownCaps rgb su n :=
+  renderDelta_correct rgb su legacy p n hn
+
+/-- **sgr_total.** No SGR consumer panics on any list of non-empty parameter lists (what the ansi
+    parser and `strings.Split` produce), including truncated 38/48/58 forms. -/
+theorem sgr_total (s : Style) (ps : Seq) (h : ∀ p ∈ ps, p ≠ []) :
+    (∃ s', parseSGR s ps = .ok s') ∧ (∃ s', emuSgr s ps = .ok s') := 
+  ⟨intSgr_ok parseCfg s ps h, intSgr_ok emuCfg s ps h⟩
+
+/-- **sgr_total (NewStyledString).** On every list of non-empty lists of arbitrary sub-parameter texts. -/
+theorem sgr_total_ss (dflt s : Style) (ps : List (List SubTok)) (h : ∀ p ∈ ps, p ≠ []) :
+    ∃ s', ssSeqTok dflt s ps = .ok s' := by
+  unfold ssSeqTok
+  split
+  · exact ⟨_, rfl⟩
+  · exact ssLoop_ok ssCfg dflt ps h s
+
+-- truncated forms return without panic and leave the style alone
+example : (match parseSGR {} [[38]] with | .ok s => s == {} | _ => false) = true := by decide
+example : (match parseSGR {} [[38], [5]] with | .ok s => s == {} | _ => false) = true := by decide
+example : (match emuSgr {} [[48], [2], [1], [2]] with | .ok s => s == {} | _ => false) = true := by decide
+example : (match parseSGR {} [[58, 2, 1]] with | .ok s => s == {} | _ => false) = true := by decide
+-- the hypothesis is needed: an empty parameter (which the parser never produces) would panic
+example : (match parseSGR {} [[]] with | .error _ => true | _ => false) = true := by decide
 
 end VaxisModel.Props.C18
